@@ -20,9 +20,11 @@ def main():
     patch = os.path.join(src, "patch.diff")
     demos = [f for f in os.listdir(src) if f.endswith(".go")]
     meta = {"name": name, "property": prop, "source": "independent sub-agent given only the property text and a scratch worktree", "ran": []}
-    shutil.copy(patch, os.path.join(dst, "patch.diff"))
-    if os.path.exists(os.path.join(src, "notes.md")):
-        shutil.copy(os.path.join(src, "notes.md"), os.path.join(dst, "notes.md"))
+    same = os.path.realpath(src) == os.path.realpath(dst)   # re-evaluation of a stored change
+    if not same:
+        shutil.copy(patch, os.path.join(dst, "patch.diff"))
+        if os.path.exists(os.path.join(src, "notes.md")):
+            shutil.copy(os.path.join(src, "notes.md"), os.path.join(dst, "notes.md"))
     wt = "/tmp/seedwt_" + name
     sh(["git", "-C", "/repo", "worktree", "remove", "--force", wt])
     rc, out = sh(["git", "-C", "/repo", "worktree", "add", "-q", "--detach", wt, "HEAD"])
@@ -42,7 +44,8 @@ def main():
         demo_ok = None
         if demos and meta["builds"]:
             demo = demos[0]
-            shutil.copy(os.path.join(src, demo), os.path.join(dst, demo))
+            if not same:
+                shutil.copy(os.path.join(src, demo), os.path.join(dst, demo))
             txt = open(os.path.join(src, demo)).read()
             head = "\n".join(txt.splitlines()[:8])
             m = re.search(r"((?:protocols|pkg|internal)(?:/[\w\.\-]+)*)", head)
